@@ -41,7 +41,9 @@ static _Bool rp_nd_bool(const char *n) { return rp_u64(n, 0) != 0; }
 #define ND_SET(lhs, name, kind) lhs = rp_nd_##kind(#name)
 #define ND_ARR(lhs, arr, k, kind) lhs = rp_arr_u64(#arr, (int)(k), 0) /* integer arrays only */
 #define VERIF_CANARY() do { if (verif_failed) { printf("REPLAY CONFIRMED: the real code violates the obligation(s) above for the counterexample input\n"); } } while (0)
-#define ASSUME(c) do { if (!(c)) { printf("replay input does not satisfy the precondition %s\n", #c); exit(0); } } while (0)
+#define ASSUME(c) do { if (!(c)) { printf("replay input does not satisfy the precondition %s\n", #c); \
+        if (verif_failed) { printf("REPLAY CONFIRMED: the real code violates the obligation(s) above for the counterexample input (a later, unrelated witness precondition is not met)\n"); } \
+        exit(verif_failed); } } while (0)
 #define ASSERT(c, msg) do { if (!(c)) { printf("OBLIGATION VIOLATED: %s\n", msg); verif_failed = 1; } } while (0)
 void VERIF_ENTRY(void);
 int main(int argc, char **argv) { rp_init(argc, argv); VERIF_ENTRY(); return verif_failed; }
